@@ -256,7 +256,40 @@ def probes1():
     evs = [("send", 0, 0, False, [12]), ("version", PL.K_RUNTIME)]
     out.append(("F-C01-3", "version lookup failure left the sends unfired", cfg, evs,
                 lambda oc: len(oc.get(0, [])) == 1 and oc[0][0][0] == 0))
+    # F-C01-4: a send made after stop() must fail at once with CancelledError(request_sent=False), not hang
+    cfg = dict(acks=1, batch=False, n=1, b=1, t=None, max=2, api=1, codec=None, retry_interval=0.25, partitioner="rr",
+               ntop=1, nparts={0: 1}, cache=[(0, 0, True)], script={})
+    evs = [("send", 0, 0, False, [12]), ("stop", None), ("send", 1, 0, False, [12])]
+    out.append(("F-C01-4", "send_messages() after stop() queued the request: its Deferred never fired", cfg, evs,
+                lambda oc: oc.get(1) == [(0, PL.K_CANCEL, 0, 0, 0)]))
+    # F-C01-5 (known): handing the request to the client raises -> the batch ends, the send never fires.
+    # Model event 13 (EBroken); Props/C01.v C01_resolved_when_quiescent_refuted_build_raises is this history.
+    cfg = dict(acks=1, batch=False, n=1, b=1, t=None, max=3, api=1, codec=None, retry_interval=0.25, partitioner="rr",
+               ntop=1, nparts={0: 1}, cache=[(0, 0, True)], script={})
+    evs = [("broken", True), ("send", 0, 0, False, [5])]
+    out.append(("F-C01-5", "an exception escaping Producer._send_requests (send_produce_request raising synchronously; "
+                "create_message_set raising, e.g. codec=CODEC_SNAPPY without python-snappy) is only logged: the batch's "
+                "send Deferreds never fire", cfg, evs,
+                lambda oc: len(oc.get(0, [])) == 1))
     return out
+
+
+def probe_snappy():
+    """F-C01-5 on the real code without any scripting: codec=CODEC_SNAPPY accepted by the constructor, python-snappy
+    absent -> create_message_set raises inside _send_requests.  Returns None if snappy is installed, else
+    (fired, still_outstanding)."""
+    from afkak.common import CODEC_SNAPPY
+    try:
+        import snappy  # noqa: F401
+        return None
+    except ImportError:
+        pass
+    cfg = dict(acks=1, batch=False, n=1, b=1, t=None, max=3, api=1, codec=CODEC_SNAPPY, retry_interval=0.25,
+               partitioner="rr", ntop=1, nparts={0: 1}, cache=[(0, 0, True)], script={})
+    r = PL.ImplRun(cfg)
+    r.apply(("send", 0, 0, False, [5]))
+    r.clock.advance(1000)
+    return (r.send_d[0].called, not r.snaps[-1]["busy"])
 
 
 # ------------------------------------------------------------------ exhaustive small scope (thorough tier, driver 1)
@@ -418,11 +451,17 @@ def run(ck):
         oc = outcomes(r)
         bad = verdict(r, 1)
         observed = bool(bad) or not good(oc)
+        if fid == "F-C01-5":
+            sn = probe_snappy()
+            ck.cov["F-C01-5_snappy_probe"] = ("python-snappy installed: not run" if sn is None else
+                                              {"send_fired": sn[0], "producer_idle": sn[1]})
+            if sn is not None and not sn[0]:
+                observed = True
         ck.finding(fid, observed, what, {"kind": "repaired defect observed again", "driver": 1, "cfg": CL.jsonable(cfg),
                                          "pyevents": CL.jsonable(evs), "outcomes": {str(k): v for k, v in oc.items()},
                                          "monitor": bad[:3], "impl_trace": r.trace, "replay_op": "run"})
         pr_runs.append(r)
-    check_runs(pr_runs, 1, "driver 1 probes (repaired defects F-C01-1..3) vs Model.Producer.run_case")
+    check_runs(pr_runs, 1, "driver 1 probes (repaired defects F-C01-1..4, known finding F-C01-5) vs Model.Producer.run_case")
 
     # --- 1. composed corpus: directed fault sequences through the real KafkaClient
     dres = directed(ck)
